@@ -229,7 +229,7 @@ func cmdCheck(args []string) {
 				for _, ob := range vc.obligs {
 					// a function that was completely proved safe must stay completely proved:
 					// obligations generated by new code in it are checked as well
-					if want[ob.Name] || complete {
+					if want[ob.Name] || (complete && !ob.Cover) {
 						kept = append(kept, ob)
 					}
 				}
@@ -348,7 +348,14 @@ func cmdCheck(args []string) {
 	}
 	if writeBaseline {
 		for _, t := range tvcs {
-			if len(newBase.Open[t.vc.fnName]) == 0 && len(t.vc.unsupported) == 0 && len(newBase.Obligations[t.vc.fnName]) > 0 {
+			// complete: every safety obligation discharged fast (slow vacuity guards do not count against it)
+			openSafety := 0
+			for _, o := range newBase.Open[t.vc.fnName] {
+				if !strings.HasPrefix(o, "cover@") {
+					openSafety++
+				}
+			}
+			if openSafety == 0 && len(t.vc.unsupported) == 0 && len(newBase.Obligations[t.vc.fnName]) > 0 {
 				newBase.Complete = append(newBase.Complete, t.vc.fnName)
 			}
 		}
